@@ -68,6 +68,14 @@ func NewBuilder(dir string, numItems uint, targetFileSize uint64) (*Builder, err
 // Index generation will fail if the same key is inserted twice.
 // The writer must not pass a value greater than targetFileSize.
 func (b *Builder) Insert(key []byte, value uint64) error {
+	if len(key) > math.MaxUint16 {
+		// The key length is stored in a uint16.
+		return fmt.Errorf("key is too long: %d > %d", len(key), math.MaxUint16)
+	}
+	if intWidth(value) > intWidth(b.FileSize) {
+		// Only intWidth(FileSize) bytes of the value are stored.
+		return fmt.Errorf("value %d does not fit the file size %d", value, b.FileSize)
+	}
 	return b.buckets[b.Header.BucketHash(key)].writeTuple(key, value)
 }
 
